@@ -14,7 +14,7 @@ def cases(tier, seed):
     n = 200 if tier == "quick" else 4000
     for i in range(n):
         r = common.case_rng(seed, PID, i)
-        yield {"steps": c12.gen_steps(r, r.choice([8, 14, 24]), md_prob=0.3)}
+        yield {"steps": c12.gen_steps(r, r.choice([8, 14, 24]), md_prob=0.3, scenario=(i % 3 == 0))}
 
 
 run_both = c12.run_both
